@@ -45,7 +45,9 @@ func collect(e *Env, family string, n int, draw func(t *rapid.T) PkgSpec) []PkgS
 		out = out[:n]
 	}
 	for i := range out {
-		out[i].Name = fmt.Sprintf("p%s%04d", strings.ToLower(family), i)
+		if out[i].Name == "" {
+			out[i].Name = fmt.Sprintf("p%s%04d", strings.ToLower(family), i)
+		}
 	}
 	return out
 }
@@ -144,6 +146,15 @@ func buildDriver(e *Env, specs []PkgSpec, race bool) (string, string, []PkgSpec,
 		}
 	}
 	st.Kept = len(kept)
+	dropped := map[string]string{}
+	for i, r := range results {
+		if !r.ok {
+			dropped[specs[i].Name] = r.why
+		}
+	}
+	if bs, err := json.Marshal(dropped); err == nil {
+		os.WriteFile(filepath.Join(root, "specs", "dropped.json"), bs, 0o644)
+	}
 	if len(kept) == 0 {
 		return "", root, nil, st, fmt.Errorf("no generated package survived (drawn %d, rejected %d, dropped %d: %v)", st.Drawn, st.Rejected, st.Dropped, st.DroppedWhy)
 	}
@@ -311,6 +322,7 @@ func cmdPrep(root, inFile, outFile string) int {
 		wd := filepath.Join(root, "work", s.Name)
 		os.MkdirAll(out, 0o755)
 		os.MkdirAll(wd, 0o755)
+		os.WriteFile(filepath.Join(root, "specs", s.Name+".json"), raw, 0o644)
 		var oc inproc.Outcome
 		if s.Embed != nil {
 			oc = inproc.GenerateRaw(raw, []byte(*s.Embed), cfg, out)
